@@ -709,3 +709,21 @@ Definition report_keys (m : avg_mode) (s : option (list skey)) (f : option (list
   match (match s with None => Some (default_keys m) | Some l => convert_keys m l end) with Some ks => ks | None => [] end.
 Definition report_fields (m : avg_mode) (f : option (list fld)) : list fld :=
   match f with None => default_fields m | Some l => l end.
+
+(* ------------------------------------------------------------------ the read loop over the merged stream *)
+(* build_function_tree reads the records of all tasks merged by time (read_rstack) and keeps one state per
+   task (handle->tasks[i]); add_remaining_fstack then walks the tasks in index order.  [ms]: the merged
+   stream as (task index, record); [n]: number of tasks *)
+Definition upd_task (i : nat) (st : tstate) (f : nat -> tstate) : nat -> tstate :=
+  fun j => if Nat.eqb j i then st else f j.
+Fixpoint grun (f : nat -> tstate) (out : list row) (ms : list (nat * rec)) : (nat -> tstate) * list row :=
+  match ms with
+  | [] => (f, out)
+  | (i, r) :: t => let '(st', rows) := step (f i) r in grun (upd_task i st' f) (out ++ rows) t
+  end.
+Definition merged_rows (max_stack : N) (n : nat) (ms : list (nat * rec)) : list row :=
+  let '(f, out) := grun (fun _ => init_state max_stack) [] ms in
+  out ++ concat (map (fun i => remaining (t_last (f i)) (t_live (f i))) (seq 0 n)).
+(* the records of task i, in their own order *)
+Definition proj (i : nat) (ms : list (nat * rec)) : list rec :=
+  map snd (filter (fun p => Nat.eqb (fst p) i) ms).
